@@ -128,6 +128,11 @@ class LevelAnalysis:
                 a = e[2]
                 if len(a) == 2 and self.is_order_term(a[1], facts) and container_local(a[0]) is not None:
                     out.append(("park", a[1], e))
+            elif e[0] == "call" and e[1] in ("std::vec::Vec::pop", "std::collections::VecDeque::pop_front", "std::collections::VecDeque::pop_back"):
+                # draining a parked container with `while let Some(o) = set_aside.pop()`
+                res = e[3]
+                if facts.variant.get(res) == "Some" and e[2] and container_local(e[2][0]) is not None:
+                    out.append(("unpark", ("field", res, "Some", "0"), e))
             elif e[0] == "call" and e[1].endswith("::next") and "Iterator" in e[1]:
                 # draining a parked container: `for o in set_aside { .. }`
                 res = e[3]
